@@ -76,6 +76,15 @@ def gen_cases(rng, tier, escalate=False):
         peers = rng.choice([3, 3, 4])
         script, stats = seq16gen.gen_script(rng, peers=peers, depth=rng.choice([2, 2, 3]), tail_par=rng.random() < 0.5)
         cases.append(_case(script, peers, stats, init=rng.randrange(peers), explore={"max_paths": paths, "max_len": 60}, how="explore"))
+    # par / seq skeletons over infallible calls, many at the init peer: the par state machine of the trace handler
+    for _ in range(n_small):
+        peers = rng.choice([2, 3, 3])
+        if rng.random() < 0.5:
+            script, stats = seq16gen.gen_par_skeleton(rng, peers=peers, depth=rng.choice([2, 3, 3]))
+        else:
+            peers = 3
+            script, stats = seq16gen.gen_join_template(rng, peers=peers)
+        cases.append(_case(script, peers, stats, init=0, explore={"max_paths": paths // 2, "max_len": 60}, how="explore-par"))
     return cases
 
 
@@ -83,6 +92,8 @@ def evaluate(cases, result, tier):
     if not cases:
         return
     keep = ("script", "peers", "init", "services", "ops", "drain", "explore", "particle_id")
+    for c in cases:
+        c.setdefault("services", seq16gen.SERVICES)          # corpus / replay cases may leave the table out
     outs = vlib.harness_lines("seq16", [json.dumps({k: c[k] for k in keep if k in c}) for c in cases], timeout=1800)
     dist = result["distribution"]
     terms, owner = [], []
